@@ -252,7 +252,7 @@ static Verdict check_case(PropId prop, const GCase& c, Stats& st)
         Expect e = expect_for(pr, in, false);
         if (e.rr.hit_rr || e.rr.looped) continue;
         if (prop == C01 || prop == C02 || prop == C05) { if (e.L.lex_error) continue; }
-        if (!uses_err && !e.L.lex_error)
+        if (!uses_err && !e.L.lex_error && e.L.toks.size() <= 160)      // Earley is cubic: the second opinion is for the short inputs
         {
             std::vector<int> tt; for (auto& t : e.L.toks) tt.push_back(t.term);
             auto er = earley.run(tt);
@@ -543,7 +543,7 @@ struct GP
         switch (PROP)
         {
         case C01: return gen_case(ch, gg::CONFLICT_FREE, 6, false, false);
-        case C02: return gen_case(ch, gg::CONFLICT_FREE, 12, false, false);
+        case C02: return gen_case(ch, gg::CONFLICT_FREE, 12, false, false, true);
         case C05: return gen_case(ch, gg::PRECEDENCE, 16, false, false);
         case C08: return gen_case(ch, gg::RECOVERY, 14, true, false);
         case C09: return gen_case(ch, gg::CONFLICT_FREE, 8, true, true);
@@ -623,6 +623,117 @@ inline ref::Grammar grammar_b()
     return g;
 }
 }
+
+// parser C (for C02t): rules WITHOUT functor over value types whose construction from the right-side values is not a plain copy:
+//   run(count, fill)  -> std::vector<int>(count, fill) ; run(count) -> std::vector<int>(count) ; pair(num, num) -> P(a, b) ; all(run) -> std::vector<int>(run)
+namespace fx
+{
+struct Pr { int a = 0, b = 0; constexpr Pr() = default; constexpr Pr(int a, int b) : a(a), b(b) {} };
+constexpr nterm<int> c_num("num"), c_count("count"), c_fill("fill");
+constexpr nterm<std::vector<int>> c_run("run"), c_all("all");
+constexpr nterm<Pr> c_pair("pair");
+constexpr nterm<std::vector<int>> c_item("item");
+constexpr char c_digit_pattern[] = "[0-9]";
+constexpr regex_term<c_digit_pattern> c_digit("digit");
+inline const auto& parser_c()
+{
+    static const auto* p = new parser(
+        c_all, terms(c_digit, '*', ',', ':'), nterms(c_all, c_item, c_run, c_pair, c_count, c_fill, c_num),
+        rules(
+            c_num(c_digit) >= [](std::string_view sv) { return int(sv[0] - '0'); },
+            c_count(c_num, '*') >= [](int n, skip) { return n; },
+            c_fill(c_num),                                   // int from int
+            c_run(c_count, c_fill),                          // std::vector<int>(count, fill)
+            c_run(c_count),                                  // std::vector<int>(count)
+            c_pair(c_num, ':', c_num) >= [](int a, skip, int b) { return Pr(a, b); },
+            c_item(c_run),                                   // std::vector<int>(std::vector<int>&&)
+            c_item(c_pair) >= [](Pr pr) { return std::vector<int>{-pr.a, -pr.b}; },
+            c_all(c_item),
+            c_all(c_all, ',', c_item) >= [](std::vector<int> a, skip, std::vector<int> b) { a.insert(a.end(), b.begin(), b.end()); return a; }
+        ));
+    return *p;
+}
+// independent evaluator over the text (no LR machinery): items separated by ','; item = d '*' d | d '*' | d ':' d
+inline bool eval_c(const std::string& text, std::vector<int>& out)
+{
+    std::string t; for (char ch : text) if (!(ch == ' ' || ch == '\t' || ch == '\n' || ch == '\r' || ch == '\v' || ch == '\f')) t += ch;
+    size_t p = 0; if (t.empty()) return false;
+    while (true)
+    {
+        if (p >= t.size() || !isdigit((unsigned char)t[p])) return false;
+        int a = t[p++] - '0';
+        if (p < t.size() && t[p] == '*')
+        {
+            ++p;
+            if (p < t.size() && isdigit((unsigned char)t[p])) { int b = t[p++] - '0'; for (int i = 0; i < a; ++i) out.push_back(b); }
+            else for (int i = 0; i < a; ++i) out.push_back(0);
+        }
+        else if (p < t.size() && t[p] == ':')
+        {
+            ++p; if (p >= t.size() || !isdigit((unsigned char)t[p])) return false;
+            int b = t[p++] - '0'; out.push_back(-a); out.push_back(-b);
+        }
+        else return false;
+        if (p == t.size()) return true;
+        if (t[p] != ',') return false;
+        ++p;
+    }
+}
+}
+
+struct P_C02t
+{
+    struct Case { std::vector<std::string> inputs; };
+    static const char* id() { return "C02t"; }
+    static Case gen(Choice& ch)
+    {
+        Case c; eng::Rng rng = ch.fork(); int n = 3 + int(ch.below(8));
+        for (int i = 0; i < n; ++i)
+        {
+            std::string s; int items = 1 + int(rng.below(5));
+            for (int k = 0; k < items; ++k)
+            {
+                if (k) s += rng.chance(1, 4) ? " , " : ",";
+                int a = int(rng.below(10)), b = int(rng.below(10));
+                switch (rng.below(3)) { case 0: s += std::to_string(a) + "*" + std::to_string(b); break; case 1: s += std::to_string(a) + "*"; break; default: s += std::to_string(a) + ":" + std::to_string(b); break; }
+            }
+            if (rng.chance(1, 6) && !s.empty()) s[rng.below(uint32_t(s.size()))] = "*:,7x"[rng.below(5)];
+            c.inputs.push_back(s);
+        }
+        return c;
+    }
+    static vj::Value to_json(const Case& c) { vj::Value o = vj::Value::object(); o.set("kind", "fixed-parser-C"); vj::Value a = vj::Value::array(); for (auto& s : c.inputs) a.push(s); o.set("inputs", a); return o; }
+    static Case from_json(const vj::Value& v) { Case c; for (size_t i = 0; i < v.at("inputs").size(); ++i) c.inputs.push_back(v.at("inputs").at(i).as_str()); return c; }
+    static std::vector<Case> shrinks(const Case& c, const vj::Value& d)
+    {
+        std::vector<Case> out;
+        if (d.has("input_index") && c.inputs.size() > 1) { size_t k = size_t(d.at("input_index").as_int()); if (k < c.inputs.size()) { Case x; x.inputs = {c.inputs[k]}; out.push_back(x); } }
+        if (c.inputs.size() == 1) for (size_t p = 0; p < c.inputs[0].size(); ++p) { Case x = c; x.inputs[0].erase(p, 1); out.push_back(x); }
+        return out;
+    }
+    static Verdict eval(const Case& c, Stats& st)
+    {
+        size_t interesting = 0;
+        for (size_t k = 0; k < c.inputs.size(); ++k)
+        {
+            std::vector<int> want; bool ok = fx::eval_c(c.inputs[k], want);
+            std::optional<std::vector<int>> got; ctpg::utils::no_stream ns; bool threw = false; std::string exc;
+            try { got = fx::parser_c().parse(ctpg::parse_options{}, ctpg::buffers::string_buffer(std::string(c.inputs[k])), ns); } catch (const std::exception& e) { threw = true; exc = e.what(); }
+            st.sub_evaluations += st.counting ? 1 : 0;
+            vj::Value d = vj::Value::object(); d.set("input_index", (unsigned long long)k); d.set("input", c.inputs[k]);
+            if (threw) { d.set("exception", exc); return Verdict::fail("parse threw", d); }
+            if (got.has_value() != ok) { d.set("expected_accept", ok); return Verdict::fail("acceptance differs from the grammar", d); }
+            if (ok && got.value() != want)
+            {
+                vj::Value w = vj::Value::array(); for (int x : want) w.push(x); vj::Value g = vj::Value::array(); for (int x : got.value()) g.push(x); d.set("expected", w); d.set("observed", g);
+                return Verdict::fail("a rule without functor did not construct the left-side value from its right-side values (L(values...))", d);
+            }
+            if (ok && want.size() >= 3) ++interesting;
+        }
+        if (interesting && st.counting && st.nontriv(eng::hstr(to_json(c).dump()))) { st.label("nontrivial"); st.label("fixed-parser:C(default functors over vector / pair / int)"); if (st.want_sample()) st.sample(to_json(c)); }
+        return Verdict::pass();
+    }
+};
 
 struct FCase { int which = 0; std::vector<gg::Input> inputs; };
 struct P_C08t
@@ -761,6 +872,7 @@ static int emit_cases(const eng::Args& a)
             x.set("accept", e.rr.accepted); x.set("value", std::to_string((unsigned long long)e.rr.value));
             std::string msgs; for (auto& m : expected_msgs(g, e)) { msgs += "[" + std::to_string(m.line) + ":" + std::to_string(m.col) + "] PARSE: " + (m.kind == 0 ? "Syntax error: Unexpected '" + m.s + "'" : "Unexpected character: " + m.s) + "\n"; }
             x.set("messages_hex", vj::hex(msgs)); x.set("tokens", (unsigned long long)e.L.toks.size()); x.set("max_depth", (unsigned long long)e.rr.max_depth);
+            { vj::Value rs = vj::Value::array(); for (int r : e.rr.reduces) rs.push(g.rules[size_t(r)].slot); x.set("reduces", rs); }
             x.set("kind", e.rr.accepted ? (e.rr.error_tokens.empty() ? "accepted" : "accepted-after-recovery") : (e.rr.lex_error_reached ? "lexical-failure" : "syntax-failure"));
             ins.push(x); if (e.rr.accepted) ++nacc; else ++nrej;
         }
@@ -786,6 +898,7 @@ int main(int argc, char** argv)
         else if (a.prop == "C05") rc = eng::run_property<GP<C05>>(a);
         else if (a.prop == "C08") rc = eng::run_property<GP<C08>>(a);
         else if (a.prop == "C08t") rc = eng::run_property<P_C08t>(a);
+        else if (a.prop == "C02t") rc = eng::run_property<P_C02t>(a);
         else if (a.prop == "C09") rc = eng::run_property<GP<C09>>(a);
         else if (a.prop == "C10") rc = eng::run_property<GP<C10>>(a);
         else if (a.prop == "C11") rc = eng::run_property<GP<C11>>(a);
